@@ -56,7 +56,7 @@ def cases(draw, tier):
                                   min_outputs=m + dn[1], max_outputs=m + dn[1], styles=('plain',)))
         if len(right['inputs']) == n and len(right['outputs']) == m:
             mode = 'independent'
-    names = draw(st.sampled_from([None, ('L', 'R'), ('a_b', 'circuit1')]))
+    names = draw(st.sampled_from([None, None, ('L', 'R'), ('a_b', 'circuit1'), ('circuit2', 'circuit1'), (None, 'R'), ('L', None)]))
     return {'left': left, 'right': right, 'mode': mode, 'names': names,
             'lroute': draw(gen.routes(left)), 'rroute': draw(gen.routes(right))}
 
@@ -71,7 +71,7 @@ def check_miter(case):
     sl, sr = wellformed.snapshot(cl), wellformed.snapshot(cr)
     kw = {}
     if case['names']:
-        kw = {'left_name': case['names'][0], 'right_name': case['names'][1]}
+        kw = {k: v for k, v in (('left_name', case['names'][0]), ('right_name', case['names'][1])) if v is not None}
     n, m = len(L['inputs']), len(L['outputs'])
     if len(R['inputs']) != n or len(R['outputs']) != m:
         try:
@@ -129,7 +129,7 @@ SPEC = {
     'id': 'C13',
     'rule': ('Pairs of Hypothesis netlists of equal shape (0-6 inputs, 1-4 outputs; right = mutant of left / '
              'independent / identical; identical, overlapping or disjoint label sets; outputs that are inputs '
-             'or repeated; custom block names) and shape-mismatched pairs. Oracle: row-wise left(x) != right(x) '
+             'or repeated; custom block names incl. only one of the two given and the two defaults swapped) and shape-mismatched pairs. Oracle: row-wise left(x) != right(x) '
              'from the reference tables, compared with the miter through cirbo evaluate (all 2^n rows), the '
              'reference evaluation of the miter netlist, and is_circuit_satisfiable; operand snapshots; '
              'wellformed(miter). Non-trivial: the circuits differ on some but not all rows.'),
